@@ -27,8 +27,10 @@ RULES = ["commitments", "shape", "htlcs", "funds", "fee_low", "fee_high", "value
 
 # tier -> (leg A constants, case matrix magnitudes, judge processes)
 TIERS = {
-    "quick": {"KS": 1, "KR": 1, "mags_a": '{"n", "g"}', "mags": "n,g", "judges": 4, "workers": 8},
-    "thorough": {"KS": 2, "KR": 1, "mags_a": '{"n", "g", "a"}', "mags": "n,g,a", "judges": 8, "workers": 8},
+    "quick": {"KS": 1, "KR": 1, "mags_a": '{"n", "g"}', "mags": "n,g", "judges": 4, "workers": 8,
+              "gens": 2},
+    "thorough": {"KS": 2, "KR": 1, "mags_a": '{"n", "g", "a"}', "mags": "n,g,a", "judges": 8,
+                 "workers": 8, "gens": 6},
 }
 
 
@@ -53,11 +55,31 @@ def leg_a(tier, d):
 
 
 def gen_cases(tier, d, dest):
+    """TLC prints the case matrix; several TLC processes share the states (MCL_PART_K of MCL_PART_N)."""
     t = TIERS[tier]
     cfg = os.path.join(vlib.SPEC, "MutualCloseCases.cfg")
-    r = vlib.tlc("MutualCloseCases", cfg, env={"MCL_OUT": dest, "MCL_TIER": tier, "MCL_MAGS": t["mags"]},
-                 workers=1, timeout=1500, name="cases-mutualclose")
-    return r
+    n = t["gens"]
+
+    def one(k):
+        out = os.path.join(d, "cases-%d.json" % k)
+        r = vlib.tlc("MutualCloseCases", cfg, env={"MCL_OUT": out, "MCL_TIER": tier, "MCL_MAGS": t["mags"],
+                                                    "MCL_PART_K": k, "MCL_PART_N": n},
+                     workers=1, timeout=2400, name="cases-mutualclose-%d" % k, heap="4g")
+        r["cases"] = json.load(open(out))
+        return r
+
+    with concurrent.futures.ThreadPoolExecutor(max_workers=n) as ex:
+        rs = list(ex.map(one, range(n)))
+    states = rs[0]["cases"]["states"]
+    for r in rs[1:]:
+        if r["cases"]["states"] != states:
+            raise vlib.ToolError("case generation: the parts disagree on the abstract states")
+    cases = []
+    for r in rs:
+        cases += r["cases"]["cases"]
+    cases.sort(key=lambda c: json.dumps(c))
+    json.dump({"states": states, "cases": cases}, open(dest, "w"))
+    return {"wall_s": max(r["wall_s"] for r in rs)}
 
 
 def run_harness(binpath, cases, d, threads=8):
